@@ -148,7 +148,7 @@ func (x *Exec) assert(st *State, goal *Term, kind, name string, tags []string, p
 	// assert-then-assume for obligations later statements rely on (call preconditions, safety);
 	// postconditions, invariants and lemma goals are checked independently of each other.
 	switch kind {
-	case "post", "post-exit", "inv-step", "inv-init", "lemma", "decreases":
+	case "post", "post-exit", "post-return", "inv-step", "inv-init", "lemma", "decreases", "no-abort-call":
 		return
 	}
 	x.assume(st, goal, "proved:"+name)
@@ -1992,7 +1992,7 @@ func (x *Exec) execLoop(lp *loopParts, st *State) Outcomes {
 		}
 	}
 	var d0 *Term
-	if lc != nil && lc.Decreases != nil {
+	if lc != nil && lc.Decreases != nil && on(lc.DecTags) {
 		s2 := *sp
 		s2.bound = map[string]Value{}
 		if lp.ivar != nil {
@@ -2016,7 +2016,7 @@ func (x *Exec) execLoop(lp *loopParts, st *State) Outcomes {
 				s2.bound["__i"] = x.readLoc(back, lp.ivar)
 			}
 			d1 := x.specTerm(lc.Decreases, back, &s2)
-			x.assert(back, And(Ge(d0, IntLit(0)), Lt(d1, d0)), "decreases", fmt.Sprintf("%s/decreases", loopName), lc.Tags, lp.stmt.Pos(), "decreases "+lc.DecText)
+			x.assert(back, And(Ge(d0, IntLit(0)), Lt(d1, d0)), "decreases", fmt.Sprintf("%s/decreases", loopName), lc.DecTags, lp.stmt.Pos(), "decreases "+lc.DecText)
 		}
 	}
 	out.Normal = x.mergeAll(exits)
